@@ -44,6 +44,14 @@ def gen_cases(tier, seed):
         cases.append({"id": "hist-%03d-%s" % (i, fam), "kind": "hist", "cfg": c, "seed": seed, "idx": 100 + i,
                       "nsteps": int(rng.integers(5, 10)), "_threads": 2, "_weight": 4.0 if fam in NLDF else 1.5,
                       "_timeout": 1800})
+    ng = 10 if tier == "quick" else 100
+    gfams = ["vj-mgga", "vi-mgga", "vij-gga", "vk-mgga", "vi-gga", "vj-gga", "vk-gga", "vij-mgga", "vj-expnt"]
+    for i in range(ng):
+        c = dict(family=gfams[i % len(gfams)], mode="SEP", evaluator="rbf", mix="pure", basis=str(rng.choice(["6-31g", "sto-3g"])),
+                 level=int(rng.integers(0, 2)), model="xc1", plan_type=str(rng.choice(["gaussian", "spline"])),
+                 interp=str(rng.choice(["onsite_direct", "onsite_spline"])), spin="uks")
+        cases.append({"id": "genhist-%03d-%s" % (i, c["family"]), "kind": "genhist", "cfg": c, "seed": seed, "idx": 3000 + i,
+                      "_threads": 2, "_weight": 3.0, "_timeout": 1200})
     nc = 12 if tier == "quick" else 120
     for i in range(nc):
         cases.append({"id": "chunk-%03d" % i, "kind": "chunk", "seed": seed, "idx": 5000 + i, "_threads": 2})
@@ -55,7 +63,7 @@ def gen_cases(tier, seed):
 
 def run_case(case, rec):
     rng = rng_for(case["seed"], PROP_NO, case["idx"])
-    {"hist": _hist, "chunk": _chunk, "alias": _alias}[case["kind"]](case, rec, rng)
+    {"hist": _hist, "chunk": _chunk, "alias": _alias, "genhist": _genhist}[case["kind"]](case, rec, rng)
 
 
 class _World:
@@ -204,6 +212,92 @@ def _hist(case, rec, rng):
     rec.note("reinit_branch", reinit)
     rec.tag("reinit_taken", reinit["taken"] > 0)
     rec.set_sample({"cfg": cfg, "history": history, "fresh_references": W.nfresh})
+
+
+def _genhist(case, rec, rng):
+    """Feature-generator level histories: get_features / get_potential for the two spin channels interleaved on ONE
+    generator (as the unrestricted integrator and the unrestricted gradient driver do), in the ordinary mode and in the
+    gradient mode (atom-ordered grids, grad_mode=True), compared with fresh generators used one spin at a time."""
+    from pyscf import gto
+    from pyscf.dft import numint as pn
+
+    from vlib import gen
+    cfg = case["cfg"]
+    for k in ("family", "plan_type", "interp", "basis", "level"):
+        rec.tag("gen_" + k, cfg[k])
+    mol = gen.make_mol(str(rng.choice(["NH2", "CH3", "H2O"])), cfg["basis"], rng, jitter=0.03, spin=None)
+    if mol.spin == 0:
+        mol = gto.M(atom=mol.atom, basis=mol.basis, charge=1, spin=1, unit=mol.unit, verbose=0)
+    _, model, ks = gen.build_ks(cfg, rng, mol=mol)
+    dm = gen.psd_dm(mol, rng, 2)
+    gen.nr_eval(ks, dm)
+    ni = ks._numint
+    ind = ks.grids.grids_indexer
+    idx_map = ind.idx_map
+    n = idx_map.size
+    lev = model.settings.nldf_settings.sl_level
+    ao = pn.eval_ao(mol, ks.grids.coords, deriv=1)
+    w = ks.grids.weights
+    rho_s = []
+    for s in range(2):
+        r = pn.eval_rho(mol, ao, dm[s], xctype=lev, with_lapl=False)
+        r[:, w == 0] = 0.0
+        rho_s.append(np.ascontiguousarray(r))
+    nf = model.settings.nldf_settings.nfeat
+
+    def fresh():
+        g = ni.nldf_init.initialize_nldf_generator(mol, ind, 2)
+        g.interpolator.set_coords(ks.grids.coords)
+        return g
+
+    for mode in ("normal", "grad", "atom-ordered"):
+        mg = mode == "normal"
+        gm = mode == "grad"
+        if mg:
+            rin = rho_s
+            npt = rho_s[0].shape[1]
+        else:
+            rin = []
+            for s in range(2):
+                ra = np.zeros((rho_s[s].shape[0], ind.ngrids))
+                ra[:, idx_map] = rho_s[s][:, :n]
+                rin.append(ra)
+            npt = n + ind.padding
+        vin = [rng.normal(size=(nf, npt)) * (np.concatenate([w[:n], np.zeros(npt - n)]) if not mg else w) for s in range(2)]
+
+        def F(g, s):
+            return np.array(g.get_features(rin[s].copy(), spin=s, map_grids=mg, grad_mode=gm))
+
+        def P(g, s):
+            out = g.get_potential(vin[s].copy(), spin=s, map_grids=mg, grad_mode=gm)
+            return [np.array(x) for x in out] if isinstance(out, tuple) else [np.array(out)]
+        try:
+            ref = {}
+            for s in range(2):
+                g = fresh()
+                ref[("F", s)] = F(g, s)
+                ref[("P", s)] = P(g, s)
+        except NotImplementedError as e:
+            rec.tag("genhist_unsupported", "%s:%s" % (mode, str(e)[:60]))
+            continue
+        orders = [[("F", 0), ("F", 1), ("P", 0), ("P", 1)], [("F", 0), ("F", 1), ("P", 1), ("P", 0)],
+                  [("F", 1), ("F", 0), ("P", 0), ("P", 0), ("P", 1)], [("F", 0), ("P", 0), ("F", 1), ("P", 1), ("P", 0)]]
+        order = orders[int(rng.integers(len(orders)))]
+        g = fresh()
+        for step, (op, s) in enumerate(order):
+            out = F(g, s) if op == "F" else P(g, s)
+            exp = ref[(op, s)]
+            outs = [out] if op == "F" else out
+            exps = [exp] if op == "F" else exp
+            names = ["features"] if op == "F" else ["vrho", "cidergg", "excsum"][: len(outs)]
+            for nm, a, b in zip(names, outs, exps):
+                sc = max(float(np.max(np.abs(b))), 1e-300)
+                rec.check("generator_history[%s]" % mode, float(np.max(np.abs(a - b))) / sc, 1e-10,
+                          mechanism="nldf-generator:%s:%s-depends-on-interleaving" % (mode, nm),
+                          detail={"order": order, "step": step, "op": op, "spin": s})
+        rec.nontrivial("genhist|" + mode)
+        rec.tag("generator_mode", mode)
+    rec.set_sample({"cfg": cfg, "kind": "generator history"})
 
 
 def _chunk(case, rec, rng):
